@@ -39,7 +39,7 @@ def hist_name(h):
 def alphabet(world):
     return [['train'], ['eval'], ['state'], ['state', [0]], ['mem'],
             ['mem', [world - 1]], ['ckpt', True, True],
-            ['ckpt', True, False], ['reload', [0]]]
+            ['ckpt', True, False], ['reload', [0]], ['train_evalsub']]
 
 
 def program_of(cfg):
@@ -76,9 +76,10 @@ def valid_next(cfg, hist, op):
     inverse-update step (we simply require the very next op to be a train
     on such a step, or another load)."""
     if not hist:
-        return True
+        # (factors must exist before a layer may skip a batch)
+        return op[0] != 'train_evalsub'
     # count steps
-    steps = sum(1 for o in hist if o[0] == 'train')
+    steps = sum(1 for o in hist if o[0] in ('train', 'train_evalsub'))
     k = cfg['kfac']
     inv = K.mk_hp(k['inv_update_steps'])
     fus = K.mk_hp(k['factor_update_steps'])
@@ -88,12 +89,14 @@ def valid_next(cfg, hist, op):
     for o in hist:
         if o[0] == 'ckpt':
             pending = not o[2]
-        elif o[0] == 'train':
+        elif o[0] in ('train', 'train_evalsub'):
             pending = False
-    if pending and op[0] == 'train' and steps % iv != 0:
+    if pending and op[0] in ('train', 'train_evalsub') and steps % iv != 0:
         return False
     if steps == 0 and op[0] == 'train' and steps % fv != 0:
         return False
+    if op[0] == 'train_evalsub' and steps == 0:
+        return False  # factors must exist before a layer skips a batch
     return True
 
 
@@ -351,7 +354,7 @@ def main(run: core.Run):
     run.notes['explorations'] = len(exps)
     run.rule = (
         f'operation-history BFS to depth {depth} over {{train, eval, '
-        'factor-less reload on one rank, '
+        'factor-less reload on one rank, an iteration with one sub-module in eval mode, '
         'state_dict on all ranks / rank 0 only, memory_usage on all ranks / '
         'one rank, load_state_dict(compute_inverses=T/F) of the latest state '
         'into fresh objects}} (states merged by the digest of all ranks\' '
